@@ -112,7 +112,10 @@ Evaluations == [members |-> Cardinality(UNION {{<<e.name, m.name>> : m \in Tok(e
 InitSt == [phase |-> "empty", kind |-> "none", item |-> "", host |-> ""]
 \* "sibling": the slide already holds a shape of the SAME type whose adjustments were all given other values (for a chart: a chart of
 \* the same type) - a new shape still reports the definition's defaults, whatever its neighbours were made to look like
-Hosts == {"slide", "group", "sibling"}
+\* "partial": the shape as ANOTHER producer may have written it - its a:avLst carries the definition's guides explicitly (with the
+\* default values) but in REVERSE document order (schema-valid; PowerPoint writes the complete list in definition order or none):
+\* adjustments[i] is the i-th adjustment of the DEFINITION, wherever its guide sits in the document
+Hosts == {"slide", "group", "sibling", "partial"}
 AddAutoShape(s, t, h) == s.phase = "empty" /\ t \in {m.name : m \in ShapeMembers} /\ h \in Hosts
 AfterAddShape(t, h)   == [phase |-> "added", kind |-> "shape", item |-> t, host |-> h]
 AddChart(s, c, h)     == s.phase = "empty" /\ c \in {x.member : x \in Writable} /\ h \in Hosts
